@@ -20,7 +20,7 @@ func (c04) Size(tier string) Size {
 	return Size{Batches: 16, Cases: 1500}
 }
 func (c04) Rule() string {
-	return "case = document over a random schema of 1-3 soft / struct-backed types with resources as primary data (single, Resources / SoftCollection / WrapperCollection members) and as included resources of different types; url.Params.Fields is built directly (missing entry, empty list, all, random subsets, 'id', unknown names, duplicates) and Document.RelData is a random subset of each type's relationships (+ unknown names). Every document is marshaled a second time (same Document value, URL selecting every field) and judged again: what the first call did with the caller's lists must not show. Oracle: for every resource object of the output, attribute names == attrs(type) ∩ selection, relationship names == rels(type) ∩ selection, data present iff requested, data == the spec's related IDs with the target type (null for an empty to-one), nothing without a selection entry. Directed: for a 3-attribute/3-relationship type EVERY subset as selection x EVERY subset as relationship-data request, in primary, collection-member and included position, soft and wrapped. Non-trivial = selection is a proper non-empty subset for at least one type; distinct = spec hash."
+	return "case = document over a random schema of 1-3 soft / struct-backed types with resources as primary data (single, Resources / SoftCollection / WrapperCollection members) and as included resources of different types; url.Params.Fields is built directly (missing entry, empty list, all, random subsets, 'id', unknown names, duplicates) and Document.RelData is a random subset of each type's relationships (+ unknown names). A third of the URLs carry a Params.RelData naming every relationship (only the document's own request counts). Every document is marshaled a second time (same Document value, URL selecting every field) and judged again: what the first call did with the caller's lists must not show. Oracle: for every resource object of the output, attribute names == attrs(type) ∩ selection, relationship names == rels(type) ∩ selection, data present iff requested, data == the spec's related IDs with the target type (null for an empty to-one), nothing without a selection entry. Directed: for a 3-attribute/3-relationship type EVERY subset as selection x EVERY subset as relationship-data request, in primary, collection-member and included position, soft and wrapped. Non-trivial = selection is a proper non-empty subset for at least one type; distinct = spec hash."
 }
 func (c04) Assumptions() []string {
 	return []string{"IDs are unique within one document so that an output object can be matched to its spec; the output is read by my own JSON walk"}
